@@ -77,6 +77,14 @@ def worldStep (fuel : Nat) (w : World) (i : Nat) (text : List Char) :
     let (r, st') := Interp.evalText fuel st text
     (some r, w.set i st')
 
+/-- `register_library_factory` on instance `i`: the factory replaces an earlier one of that name, and an instance
+of that library made from the earlier factory is forgotten. Only instance `i` has a factory table. -/
+def worldRegister (w : World) (i : Nat) (lib : LibName) (fac : Interp.Factory) : World :=
+  match w[i]? with
+  | none => w
+  | some st => w.set i { st with factories := Interp.libInsert st.factories lib fac,
+                                 instances := st.instances.filter (fun p => p.1 ≠ lib) }
+
 /-- `Interpreter::new_with_stdlib()` from any world: always succeeds, leaves the others alone -/
 def worldNew (fuel : Nat) (w : World) : World := w ++ [Interp.withStdlib fuel false]
 
